@@ -138,7 +138,9 @@ impl<Wr: Write> HtmlSerializer<Wr> {
                     "&nbsp;"
                 },
                 _ => {
-                    //  0xC2 not followed by 0xA0 (not NBSP), so keep looking.
+                    //  0xC2 not followed by 0xA0 (not NBSP): it is the lead byte of another
+                    //  character and has to be written like any other byte.
+                    self.writer.write_all(&bytes[next_special..=next_special])?;
                     continue;
                 },
             };
